@@ -132,4 +132,53 @@ theorem optimizeLoop_result (ser : List Entry → Bytes) (budget : Nat) (es : Li
       exact ⟨hfit, Or.inr ⟨ls, hls, rfl⟩⟩
     · exact ih (next ls) b (hnext ls hls) h
 
+/-! ## termination of the growth loop -/
+
+theorem chunks_big (n : Nat) (es : List Entry) (hn : es.length ≤ n) : (chunks n es).length ≤ 1 := by
+  unfold chunks
+  cases es with
+  | nil => simp [chunksAux]
+  | cons e t =>
+    simp only [List.length_cons, chunksAux]
+    have hd : (e :: t).drop n = [] := List.drop_eq_nil_of_le hn
+    rw [hd]
+    cases t.length <;> simp [chunksAux]
+
+theorem buildGo_length (ser : List Entry → Bytes) (cs : List (List Entry)) (off : Nat) :
+    (buildGo ser off cs).1.length = cs.length := by
+  induction cs generalizing off with
+  | nil => rfl
+  | cons c cs ih => simp [buildGo, ih]
+
+/-- once the leaf size reaches the number of entries the root holds at most one pointer -/
+theorem build_big_root (ser : List Entry → Bytes) (es : List Entry) (ls : Nat) (h : es.length ≤ ls) :
+    (buildRootsLeaves ser es ls).rootEntries.length ≤ 1 := by
+  simp only [buildRootsLeaves, buildGo_length]
+  exact chunks_big ls es h
+
+theorem optimizeLoop_terminates (ser : List Entry → Bytes) (budget : Nat) (es : List Entry) (next : Nat → Nat)
+    (hgrow : ∀ ls, ls < next ls)
+    (hsmall : ∀ l : List Entry, l.length ≤ 1 → (ser l).length ≤ budget) :
+    ∀ fuel ls, 1 ≤ fuel → es.length < fuel + ls → ∃ b, optimizeLoop ser budget es next fuel ls = some b := by
+  intro fuel
+  induction fuel with
+  | zero => intro ls h; omega
+  | succ f ih =>
+    intro ls _ h
+    simp only [optimizeLoop]
+    split
+    · exact ⟨_, rfl⟩
+    · rename_i hnot
+      have hlt : ls < es.length := by
+        by_cases hc : es.length ≤ ls
+        · exfalso
+          apply hnot
+          have := build_big_root ser es ls hc
+          have hr : (buildRootsLeaves ser es ls).rootBytes = ser (buildRootsLeaves ser es ls).rootEntries := rfl
+          rw [hr]
+          exact hsmall _ this
+        · omega
+      have := hgrow ls
+      exact ih (next ls) (by omega) (by omega)
+
 end Pm.Build
